@@ -639,8 +639,16 @@ func (nr *netRun) checkC04(x *xfer) {
 				closed = true
 			}
 		}
-		if !closed {
-			r.Failf("C04", "refused-restart-transport-not-closed", "", "the validator refused the restart of channel #%d (step %d) but the responder never closed the channel's transport channel", x.idx, vc.Step)
+		if !closed && b.GS.ActiveFor(x.chid.ID) {
+			// (a transport channel whose graphsync request is gone anyway - e.g. ended by the connection cut that made
+			// the initiator restart - has nothing left to close)
+			cause := ""
+			for _, w := range b.Wire {
+				if w.Dir == "send" && !w.Sum.Req && w.Sum.Restart && !w.Sum.Accepted && w.Sum.TID == x.chid.ID && w.Step >= vc.Step && w.Err != "" {
+					cause = "refusal-could-not-be-sent"
+				}
+			}
+			r.Failf("C04", "refused-restart-transport-not-closed", cause, "the validator refused the restart of channel #%d (step %d); the responder never closed the channel's transport channel and its graphsync request is still alive: %s", x.idx, vc.Step, b.GS.DescribeFor(x.chid.ID))
 		}
 	}
 	// the channel exists on the responder only if some validation accepted it
